@@ -67,7 +67,12 @@ def c09 (kind : String) (inp impl : Json) : Verdict :=
         if !jbool impl "ok" then s!"fail:generation failed: {jstr impl "err"}"
         else
           let bad := ["model", "result", "param", "insparam"].filter (fun k => jstr impl k != w)
-          if bad.isEmpty then "ok" else s!"fail:documented {w}; positions that differ: {bad} = {bad.map (jstr impl)}"
+          let wnn : String := (if eng == "postgresql" then (pgCanonByName (jstr inp "canon")).map (fun c => Spec.docGoType c.go true arr)
+                               else (myCanonByName (jstr inp "canon")).map (fun c => Spec.docGoType c.go true arr)).getD w
+          if !bad.isEmpty then s!"fail:documented {w}; positions that differ: {bad} = {bad.map (jstr impl)}"
+          else if jhas impl "coalesced" && jstr impl "coalesced" != wnn then
+            s!"fail:documented {wnn} for the NOT NULL result coalesce(c, c) AS c; {jstr impl "coalescedStruct"}.C is {jstr impl "coalesced"}"
+          else "ok"
     let sp := jstr inp "spelling"
     { compare := false, frag := "e2e", specImpl := verdict,
       trig := (if eng == "postgresql" && Spec.pgKnownMissing.contains sp then ["bareSpelling"] else []) ++
